@@ -152,6 +152,30 @@ def impl(case):
             out.append([i0, i1])
         else:
             out.append([i0, i1, int(bool(pr["pit"]))])
+    if call["mode"] == "none" and a[4][0] >= 2:
+        # streams between given outlet cells (idxs_out): a maximum length divides the segments, it must not lose links
+        import random
+        r2 = random.Random(sum(call["flw"]) * 31 + nr)
+        valid = [i for i in range(n) if ds[i] >= 0]
+        outs = np.array(sorted(r2.sample(valid, max(1, len(valid) // 4))), dtype=np.intp)
+
+        def linkset(ml):
+            st_, fs = call_impl(flw.streams, idxs_out=outs, max_len=ml)
+            if st_ != "ok":
+                return st_
+            got = set()
+            for f in fs:
+                cur = int(f["properties"]["idx"])
+                for _ in f["geometry"]["coordinates"][1:]:
+                    got.add((cur, ds[cur]))
+                    cur = ds[cur]
+            return got
+        l0, l1 = linkset(0), linkset(a[4][0])
+        if isinstance(l0, str) or isinstance(l1, str):
+            return [[-2], [f"streams(idxs_out) {l0 if isinstance(l0, str) else l1}"]]
+        if l0 != l1:
+            return [[-6], [f"streams(idxs_out={outs.tolist()}, max_len={a[4][0]}) covers {len(l1)} of the {len(l0)} links covered "
+                           f"without a maximum length; missing {sorted(l0 - l1)[:5]}"]]
     return out
 
 
@@ -166,6 +190,8 @@ def oracle(case, out):
     k, a = case["k"], case["args"]
     if out and out[0] in ([-2], [-3]):
         return ("vector:unexpected-outcome", f"{out}")
+    if out and out[0] == [-6]:
+        return ("streams:idxs_out-maxlen-truncates", out[1][0])
     if k == 1904:
         from fractions import Fraction
         q = Fraction(a[1][0], a[2][0])
